@@ -19,8 +19,9 @@
        | ok q=<tokenizer calls> imgs=<id:src:pre,…|-> msgs=<hex;…> prompt=<hex|?> costs=<ok|BAD@i|?>
          (msgs = contents of ALL messages after the call: chatPrompt rewrites msgs[n:] in place)
 
-    resolve <nimgs> {<id>}* <ntags> {<tag>}*
-      runner `inputs`: for each tag the position of the first image with that ID
+    resolve <prompthex> <nimgs> {<id>}*
+      runner `inputs`: the `[img-N]` matches of the prompt bytes, and for each the position of
+      the first image whose ID is N
       -> ok <pos,…|-> | err:invalid-image-index
 
     handler <sysHex> <nModel> {msg}* <nReq> {msg}*        (msg as above)
@@ -198,8 +199,9 @@ def handle (toks : List String) : Option String :=
             | _ => "template-model-disagrees")) rest
   | "resolve" :: rest =>
     runTP (do
+      let prompt ← hex
       let ids ← listOf nat
-      let tags ← listOf nat
+      let tags := scanTags prompt 0
       let imgs : List ImgOut := ids.map fun i => ⟨i, 0, false⟩
       pure (match resolveTags imgs tags with
         | none => "err:invalid-image-index"
